@@ -48,6 +48,10 @@ def run_one(ctx, cfg):
             p = procutil.MapProc(main, cores=cfg['cores'], lazy=cfg['lazy'], h5_target_group=target)
             if cfg['maxpos'] is not None:
                 p._max_pos_per_read = cfg['maxpos']
+            refusal_problem = None
+            if cfg.get('refused_choice'):
+                foreign = (target if target is not None else main.parent).require_group('not_a_results_group')
+                refusal_problem = procutil.refused_choice(p, foreign)
         procutil.LOG['path'] = log
         try:
             with common.quiet():
@@ -61,7 +65,7 @@ def run_one(ctx, cfg):
         return {'batches': p.batches_seen, 'log': rows, 'workers': len(pids),
                 'status': [int(x) for x in grp['completed_positions'][()]],
                 'results': [float(x) for x in grp['Results'][:, 0]],
-                'maxpos_used': int(p._max_pos_per_read), 'group': grp.name}
+                'maxpos_used': int(p._max_pos_per_read), 'group': grp.name, 'refusal_problem': refusal_problem}
     finally:
         h5.close()
         if h5t is not None:
@@ -145,6 +149,8 @@ def run(ctx, build):
     cfgs = [gen_cfg(rng, ctx.quick()) for _ in range(n_small)] + [gen_cfg(rng, ctx.quick(), big=True) for _ in range(n_big)]
     # designed, seed-independent: large datasets that are all but complete (a decision taken on a rounded percentage must not
     # mistake them for finished ones)
+    cfgs += [{'N': 12, 'M': 2, 'mask': [1, 1, 0, 0, 1, 0, 0, 0, 0, 1, 0, 0], 'maxpos': 4, 'cores': 1, 'lazy': False, 'separate': False, 'refused_choice': True},
+             {'N': 9, 'M': 1, 'mask': [0] * 9, 'maxpos': 4, 'cores': 1, 'lazy': True, 'separate': True, 'refused_choice': True}]
     cfgs += [{'N': 130, 'M': 2, 'mask': [0] * 130, 'maxpos': 55, 'cores': 2, 'lazy': False, 'separate': False, 'extra_args': True},
              {'N': 24, 'M': 2, 'mask': [1 if i in (0, 1, 2, 3, 4, 12, 13, 14, 15) else 0 for i in range(24)], 'maxpos': 5, 'cores': 1, 'lazy': False,
               'separate': False, 'legacy_before': 9},
@@ -180,6 +186,8 @@ def run(ctx, build):
                            clist([res_id(M, p, v) for p, v in enumerate(obs['results'])], lambda x: copt(x, cnat))))
         meta.append({'cfg': cfg, 'observed': {k: obs[k] for k in ('batches', 'log', 'status', 'workers')}})
         v = oracle(cfg, obs)
+        if obs.get('refusal_problem'):
+            v = v or ('unsuitable_group_not_refused', obs['refusal_problem'])
         if v:
             out.violations.append({'call_site': 'Process.compute', 'input_class': 'any', 'failure_mode': v[0],
                                    'what': v[1], 'case': cfg})
